@@ -30,7 +30,7 @@ fn corpus() -> Vec<Item> {
         Item { pattern: r"(a|ab)(c|bcd)\2?(?=d*)(\w)", backtrack_limit: None, texts: ["abcdd", "xacce", "abcdbcdé"] },
         Item { pattern: r"(?:(a)|b(?=c))*c", backtrack_limit: None, texts: ["abcx", "aabc", "bcac"] },
         Item { pattern: r"(?>a+|b)c\b", backtrack_limit: None, texts: ["aac d", "bc", "xaacé c"] },
-        Item { pattern: r"(x+x+)+(?=y)", backtrack_limit: Some(10_000), texts: ["xxxxy", "xxxxxz", "xxy"] },
+        Item { pattern: r"(x+x+)+(?=y)", backtrack_limit: Some(10_000), texts: ["xxxxy", "xxxz", "xxy"] },
         Item { pattern: r"(?<=(a))b(?(1)c|d)", backtrack_limit: None, texts: ["abc", "xabd", "bab c"] },
         Item { pattern: r"(?i)(\w+) \1", backtrack_limit: None, texts: ["ab AB", "xy xz xz", "é é"] },
         Item { pattern: r"\d+(?!\.)", backtrack_limit: None, texts: ["12.5 7", "3.", "x99"] },
@@ -158,6 +158,101 @@ pub fn run_c18(cx: &Ctx) -> i32 {
             run_mode(cx, true).unwrap_or(2)
         }
     }
+}
+
+/// The free-running stress pass (runs in a child process: a data race in unsafe code can corrupt
+/// memory and kill the process, which must become a verdict, not a dead harness).
+fn stress_pass(quick: bool) -> (u64, Vec<J>) {
+    let mut out: Vec<J> = Vec::new();
+    // Supplementary, labelled SAMPLING (not part of the exhaustive coverage): the same bodies on
+    // free-running OS threads. It reaches what the cooperative scheduler cannot separate (an
+    // unsynchronised access pair between two hook points, e.g. inside one Delegate instruction).
+    // The oracle is exact (the sequential result), so it can only confirm a violation.
+    let stress_rounds = if quick { 1500 } else { 10000 };
+    let mut stress_calls = 0u64;
+    for item in corpus().into_iter().chain(stress_extra()) {
+        let re = match engine::compile_with(item.pattern, |b| {
+            if let Some(l) = item.backtrack_limit {
+                b.backtrack_limit(l);
+            }
+        }) {
+            Ok(r) => ForceShare(r),
+            Err(_) => continue,
+        };
+        let expected: Vec<[String; 2]> = item.texts.iter().map(|t| [one_call(&re.0, t, 0), one_call(&re.0, t, 1)]).collect();
+        let bad: std::sync::Mutex<Option<(usize, usize, String)>> = std::sync::Mutex::new(None);
+        // more threads than regex-automata's pool has stacks (8), so that non-owner threads share one
+        let nthreads = 24usize;
+        {
+            let go = std::sync::atomic::AtomicBool::new(false);
+            let go = &go;
+            let work = |th: usize| {
+                let (re, expected, bad, item) = (&re, &expected, &bad, &item);
+                {
+                    engine::quiet_panics();
+                    let re: &Regex = &re.0;
+                    let local = if th % 2 == 0 { None } else { Some(re.clone()) };
+                    // long texts: fewer rounds, single searches only (an iteration over a long text
+                    // that does not match is quadratic)
+                    let long = item.texts[0].len() > 100;
+                    // the other threads make their first search on this Regex while the controlling
+                    // thread is already searching (the window of first-use / owner-claim races)
+                    if th < nthreads {
+                        while !go.load(std::sync::atomic::Ordering::Acquire) {
+                            std::hint::spin_loop();
+                        }
+                    }
+                    for r in 0..(if long { stress_rounds / 10 } else { stress_rounds }) {
+                        if th == nthreads && r == 1 {
+                            go.store(true, std::sync::atomic::Ordering::Release);
+                        }
+                        let ti = (th + r) % 3;
+                        let rr = local.as_ref().unwrap_or(re);
+                        let kind = if long { 0 } else { (th / 2 + r) % 2 };
+                        let got = catch_unwind(AssertUnwindSafe(|| one_call(rr, item.texts[ti], kind))).unwrap_or_else(|p| format!("PANIC: {}", engine::panic_msg(p)));
+                        if got != expected[ti][kind] {
+                            let mut b = bad.lock().unwrap();
+                            if b.is_none() {
+                                *b = Some((ti, kind, got));
+                            }
+                            return;
+                        }
+                    }
+                }
+            };
+            let work = &work;
+            std::thread::scope(|s| {
+                for th in 0..nthreads {
+                    s.spawn(move || work(th));
+                }
+                // the controlling thread takes part as well: it has used this Regex (and the VM) before
+                // any of the other threads existed - the "first thread" of owner-style caches
+                work(nthreads);
+                go.store(true, std::sync::atomic::Ordering::Release);
+            });
+        }
+        stress_calls += ((nthreads + 1) * stress_rounds) as u64;
+        if let Some((ti, kind, got)) = bad.into_inner().unwrap() {
+            out.push(
+                jobj! {"kind" => "c18-stress", "pattern" => item.pattern, "text" => item.texts[ti], "expected" => expected[ti][kind].as_str(), "observed" => got.as_str(),
+                "summary" => format!("free-running stress (24 threads, sampling): /{}/ on {:?} ({}) returned {} instead of the sequential result {}", item.pattern, item.texts[ti], if kind == 0 { "captures" } else { "find_iter" }, got, expected[ti][kind])},
+            );
+        }
+    }
+    (stress_calls, out)
+}
+
+/// `frmc c18-stress quick|thorough`: prints "CALLS n" and one "V <json>" line per violation.
+pub fn stress_worker(args: &[String]) -> i32 {
+    engine::quiet_panics();
+    // the controlling thread is the first thread of the process to run the VM
+    let _ = Regex::new("a(?=b)").map(|r| r.is_match("ab"));
+    let (calls, v) = stress_pass(args.first().map(|s| s == "quick").unwrap_or(true));
+    println!("CALLS {}", calls);
+    for j in v {
+        println!("V {}", j.to_string_compact());
+    }
+    0
 }
 
 fn run_mode(cx: &Ctx, serial: bool) -> Option<i32> {
@@ -356,66 +451,38 @@ fn run_mode(cx: &Ctx, serial: bool) -> Option<i32> {
         );
     }
     // Supplementary, labelled SAMPLING (not part of the exhaustive coverage): the same bodies on
-    // free-running OS threads. It reaches what the cooperative scheduler cannot separate (an
-    // unsynchronised access pair between two hook points, e.g. inside one Delegate instruction).
-    // The oracle is exact (the sequential result), so it can only confirm a violation.
-    let stress_rounds = if cx.quick() { 1500 } else { 10000 };
+    // free-running OS threads, in a child process (stress_pass). It reaches what the cooperative
+    // scheduler cannot separate (an unsynchronised access pair between two hook points, e.g. inside
+    // one Delegate instruction). The oracle is exact (the sequential result), so it can only confirm
+    // a violation; a child killed by a signal is one too (safe API, memory corrupted under
+    // concurrent use).
     let mut stress_calls = 0u64;
-    for item in corpus().into_iter().chain(stress_extra()) {
-        let re = match engine::compile_with(item.pattern, |b| {
-            if let Some(l) = item.backtrack_limit {
-                b.backtrack_limit(l);
+    {
+        let exe = std::env::current_exe().expect("current exe");
+        let outp = std::process::Command::new(&exe).args(["c18-stress", if cx.quick() { "quick" } else { "thorough" }]).stderr(std::process::Stdio::null()).output();
+        match outp {
+            Err(e) => {
+                eprintln!("machinery error: cannot start the stress process: {}", e);
+                return Some(2);
             }
-        }) {
-            Ok(r) => ForceShare(r),
-            Err(_) => continue,
-        };
-        let expected: Vec<[String; 2]> = item.texts.iter().map(|t| [one_call(&re.0, t, 0), one_call(&re.0, t, 1)]).collect();
-        let bad: std::sync::Mutex<Option<(usize, usize, String)>> = std::sync::Mutex::new(None);
-        // more threads than regex-automata's pool has stacks (8), so that non-owner threads share one
-        let nthreads = 24usize;
-        {
-            let work = |th: usize| {
-                let (re, expected, bad, item) = (&re, &expected, &bad, &item);
-                {
-                    engine::quiet_panics();
-                    let re: &Regex = &re.0;
-                    let local = if th % 2 == 0 { None } else { Some(re.clone()) };
-                    // long texts: fewer rounds, single searches only (an iteration over a long text
-                    // that does not match is quadratic)
-                    let long = item.texts[0].len() > 100;
-                    for r in 0..(if long { stress_rounds / 10 } else { stress_rounds }) {
-                        let ti = (th + r) % 3;
-                        let rr = local.as_ref().unwrap_or(re);
-                        let kind = if long { 0 } else { (th / 2 + r) % 2 };
-                        let got = catch_unwind(AssertUnwindSafe(|| one_call(rr, item.texts[ti], kind))).unwrap_or_else(|p| format!("PANIC: {}", engine::panic_msg(p)));
-                        if got != expected[ti][kind] {
-                            let mut b = bad.lock().unwrap();
-                            if b.is_none() {
-                                *b = Some((ti, kind, got));
-                            }
-                            return;
+            Ok(o) => {
+                for line in String::from_utf8_lossy(&o.stdout).lines() {
+                    if let Some(n) = line.strip_prefix("CALLS ") {
+                        stress_calls = n.trim().parse().unwrap_or(0);
+                    } else if let Some(j) = line.strip_prefix("V ") {
+                        if let Ok(case) = frmc_core::json::parse(j) {
+                            t.violation(2, case);
                         }
                     }
                 }
-            };
-            let work = &work;
-            std::thread::scope(|s| {
-                for th in 0..nthreads {
-                    s.spawn(move || work(th));
+                if !o.status.success() {
+                    t.violation(
+                        1,
+                        jobj! {"kind" => "c18-stress", "observed" => format!("{:?}", o.status),
+                        "summary" => format!("free-running stress (24 threads + the controlling thread, sampling): the process died ({:?}) while one Regex was used from several threads through the safe API - memory was corrupted", o.status)},
+                    );
                 }
-                // the controlling thread takes part as well: it has used this Regex (and the VM) before
-                // any of the other threads existed - the "first thread" of owner-style caches
-                work(nthreads);
-            });
-        }
-        stress_calls += ((nthreads + 1) * stress_rounds) as u64;
-        if let Some((ti, kind, got)) = bad.into_inner().unwrap() {
-            t.violation(
-                2,
-                jobj! {"kind" => "c18-stress", "pattern" => item.pattern, "text" => item.texts[ti], "expected" => expected[ti][kind].as_str(), "observed" => got.as_str(),
-                "summary" => format!("free-running stress (24 threads, sampling): /{}/ on {:?} ({}) returned {} instead of the sequential result {}", item.pattern, item.texts[ti], if kind == 0 { "captures" } else { "find_iter" }, got, expected[ti][kind])},
-            );
+            }
         }
     }
     t.count("beyond_exhaustive_stress_calls(sampling)", stress_calls);
